@@ -3,7 +3,7 @@
 import json, os, re, shutil, subprocess, sys, glob
 from concurrent.futures import ThreadPoolExecutor
 HERE = os.path.dirname(os.path.dirname(os.path.abspath(__file__)))
-OUT = "/tmp/seed/out"
+OUT = os.environ.get("SEED_DIR", "/tmp/seed/out")
 EXTRA = {"C13_b": ["C13", "C07"], "C05_b": ["C05", "C12"], "C01_b_ported": ["C01", "C15"], "C15_b_ported": ["C15"], "C02_a": ["C02", "C15"]}
 names = sorted(os.path.basename(p)[:-5] for p in glob.glob(OUT + "/C??_?.diff") + glob.glob(OUT + "/C??_?_ported.diff"))
 names = [n for n in names if not (n in ("C01_b", "C15_b"))]  # replaced by their ports to HEAD
